@@ -6,7 +6,7 @@ import (
 
 // C20: behaviour depends on the schema's content, not on how it was loaded.
 
-var c20Vias = []string{"schema", "fresh", "private", "noparent", "notfound", "fresh-notfound", "hide-requests", "hide-responses"}
+var c20Vias = []string{"schema", "fresh", "private", "vendored", "noparent", "notfound", "fresh-notfound", "hide-requests", "hide-responses"}
 
 var libraryUnary = []string{"GetBook", "CreateBook", "ListBooks", "CreateShelf", "ListShelves", "UpdateBook", "DeleteBook", "SearchBooks", "MoveBooks", "CheckoutBooks", "ReturnBooks", "GetCheckout", "ListCheckouts"}
 
@@ -61,7 +61,7 @@ func init() {
 		ID:    "C20",
 		Level: "exploration",
 		Rule: "the same Plan and schedule are executed against worlds that differ only in how the schema reached NewTranscoder: by name from generated code (reference); NewServiceWithSchema with the generated descriptor; a fresh protodesc file built from the serialised descriptor; " +
-			"a private registry rebuilt file by file with google.api.http parsed as a dynamic extension; a service descriptor without parent file; a resolver that answers NotFound for every type (alone and on top of the fresh file), and resolvers that know every type except the request-only (response-only) ones. " +
+			"a private registry rebuilt file by file with google.api.http parsed as a dynamic extension; the same files as a vendored tree (google/api/*.proto registered under third_party/googleapis/, imports renamed); a service descriptor without parent file; a resolver that answers NotFound for every type (alone and on top of the fresh file), and resolvers that know every type except the request-only (response-only) ones. " +
 			"and a schema that exists only as run-time built descriptors with a three-file import chain, served with a resolver built from all files (reference) and with the resolver left to the transcoder. scenario corpus: REST and RPC requests against two services defined in one run-time built file and registered in either order; REST requests rendered by the reference encoder for the 13 bound LibraryService methods (routing, binding, response_body), RPC requests in every unary client form incl. Connect GET, scripted backend errors. " +
 			"oracle: equal canonical outcome at the client and equal view at the backend across all variants. distinct = (scenario kind, client form, method, schedule hash); non-trivial = the request reached ServeHTTP. " +
 			"vanguardgrpc.NewTranscoder is not simulated (grpc-go's handler transport runs its own goroutines): not covered by this check",
